@@ -31,7 +31,7 @@ def gen(ctx):
     rng = random.Random(ctx.seed * 2654435 + 14)
     scen = []
     combos = [("real", "real"), ("real", "ref"), ("ref", "real")]
-    n = 60 if quick else 600
+    n = 60 if quick else 2500
     for i in range(n):
         c, s = combos[i % 3]
         nw = rng.randrange(0, 5)
